@@ -16,6 +16,7 @@ Definition dispatch (e : sexp) : option sexp :=
   | SList (Atom "docoptm" :: _) => run_docoptm e
   | SList (Atom "matchtoks" :: _) => run_matchtoks e
   | SList (Atom "canon" :: _) => run_canon e
+  | SList (Atom "sortstrings" :: _) => run_sortstrings e
   | SList (Atom "engine" :: _) => run_engine e
   | SList (Atom "find" :: _) => run_find e
   | SList (Atom "plain" :: _) => run_plain e
